@@ -13,6 +13,9 @@
 (*                   gives the payload (file / comma separated words / one word / one value / legacy `authentication`),  *)
 (*                   a second form dimension (authentication key, wrapping key name, counter name), optional keys given  *)
 (*          + hist : exports of the one object load_from_config returns.                                               *)
+(*          + rk, ik : value class of the root key at every position of the root set and of the image signing key         *)
+(*                   (Sb31Format!KeyClasses: leading zero byte in X / Y / both) - on this path the keys are READ from the   *)
+(*                   public / private key files the configuration names.                                                  *)
 (* The harness renders each case into a configuration dictionary + files, calls load_from_config, exports; the SAME     *)
 (* executor walks the bytes and the SAME R-spec (Sb31Rom, via Sb31RomTrace) decides.  Sizes come from Sb31Format.       *)
 EXTENDS Sb31Format, Json, IOUtils
@@ -32,9 +35,11 @@ NumFmts == {"int", "hex", "dec", "hex_"}
 K0 == [fam |-> "mcxn947", pckForm |-> "txt", pckVal |-> "rnd", encKey |-> "true", sign |-> "signPrivateKey", cb |-> "yaml",
        cbSign |-> "signPrivateKey", cbNew |-> TRUE, rootId |-> TRUE, num |-> "hex",
        descAbsent |-> FALSE, flagsAbsent |-> FALSE, nxpAbsent |-> FALSE]
+AllFull(n) == [i \in 1..n |-> "full"] \o <<>>
 Case(cv, nk, us, ik, ud, pck, rt, nx, k, cmds, hist) ==
   [curve |-> cv, nkeys |-> nk, used |-> us, isk |-> ik, ud |-> ud, pck |-> pck, rights |-> rt, enc |-> (k.encKey # "false"), nxp |-> nx,
-   k |-> k, cmds |-> cmds, hist |-> hist]
+   rk |-> AllFull(nk), ik |-> "full", k |-> k, cmds |-> cmds, hist |-> hist]
+Keyed(c, rk, ik) == [c EXCEPT !.rk = rk, !.ik = ik]
 E1 == <<"Export">>
 E2 == <<"Export", "Export">>
 \* dimensions that cannot matter are pinned, so that no case is generated twice
@@ -46,7 +51,8 @@ Norm(c) ==
                       !.pckForm = IF c.enc THEN @ ELSE (IF @ \in {"absent", "hex"} THEN @ ELSE "absent"),
                       !.pckVal = IF c.enc /\ (@ # "half0" \/ c.pck = 256) THEN @ ELSE "rnd",
                       !.nxpAbsent = IF c.nxp THEN FALSE ELSE @]
-  IN [c EXCEPT !.k = k1, !.pck = IF c.enc THEN @ ELSE 128, !.rights = IF c.enc THEN @ ELSE 0, !.ud = IF c.isk THEN @ ELSE 0]
+  IN [c EXCEPT !.k = k1, !.pck = IF c.enc THEN @ ELSE 128, !.rights = IF c.enc THEN @ ELSE 0, !.ud = IF c.isk THEN @ ELSE 0,
+               !.ik = IF c.isk THEN @ ELSE "full"]
 
 \* ---- commands as the configuration expresses them
 CC(t, dl, f, s, o) == [t |-> t, dl |-> dl, form |-> f, sub |-> s, opt |-> o]
@@ -101,6 +107,23 @@ TourS == {Norm(Case(cv, rs[1], rs[2], FALSE, 0, 128, 2, FALSE, [K0 EXCEPT !.sign
           : cv \in {32, 48}, ud \in IF Full THEN {0, 4, 96} ELSE {0, 96}, sg \in KeyKeys, cb \in {"yaml", "bin"}, cs \in KeyKeys,
             nw \in BOOLEAN, ri \in BOOLEAN}
 
+\* ---- tour R: the value classes of the keys the configuration names - a key of every short class at every position of the root
+\*      set (used / not used) and at all positions, x no ISK / ISK of every class x certificate block as nested configuration /
+\*      binary x main certificate index given / found from the key (thorough: every vector of classes for sets of up to 3 keys)
+OneShort(n, p, c) == [i \in 1..n |-> IF i = p THEN c ELSE "full"] \o <<>>
+KeyVecs(n) == {AllFull(n)} \cup {OneShort(n, p, c) : p \in 1..n, c \in ShortClasses} \cup {[i \in 1..n |-> c] \o <<>> : c \in ShortClasses}
+              \cup (IF Full /\ n <= 3 THEN {v \o <<>> : v \in [1..n -> KeyClasses]} ELSE {})
+IskKeys == {<<FALSE, "full">>} \cup {<<TRUE, c>> : c \in KeyClasses}
+TourR == UNION {{Norm(Keyed(Case(cv, rs[1], rs[2], ik[1], 0, 128, 2, FALSE, [K0 EXCEPT !.cb = cb, !.rootId = ri, !.pckForm = "hex"], Three, E1), rk, ik[2]))
+                 : cv \in {32, 48}, cb \in {"yaml", "bin"}, ri \in BOOLEAN, ik \in IskKeys, rk \in KeyVecs(rs[1])} : rs \in RootSets}
+RkLemma == \A cv \in {32, 48}, c \in ShortClasses, ik \in BOOLEAN, cb \in {"yaml", "bin"} :
+              /\ \E x \in TourR : x.curve = cv /\ x.isk = ik /\ x.k.cb = cb /\ x.nkeys > 1 /\ x.rk[x.used + 1] = c
+              /\ \E x \in TourR : x.curve = cv /\ x.isk = ik /\ x.k.cb = cb /\ x.nkeys > 1 /\ x.rk[x.used + 1] = "full" /\ \E i \in 1..x.nkeys : x.rk[i] = c
+              /\ \E x \in TourR : x.curve = cv /\ x.isk = ik /\ x.k.cb = cb /\ x.nkeys = 1 /\ x.rk[1] = c
+              /\ \E x \in TourR : x.curve = cv /\ x.isk /\ x.k.cb = cb /\ x.ik = c /\ x.rk = AllFull(x.nkeys)
+              /\ \E x \in TourR : x.curve = cv /\ x.isk /\ x.k.cb = "yaml" /\ ~x.k.rootId /\ x.rk[x.used + 1] = c
+ASSUME RkLemma
+
 \* ---- tour C: every command kind in every form the configuration has for it
 \*      C1: every shape with the smallest payload x every number format x two configurations
 \*      C2: every shape with every payload length of the menu
@@ -113,7 +136,7 @@ TourC3 == UNION {{CfgA([K0 EXCEPT !.num = n], EveryKind, h), CfgB([K0 EXCEPT !.n
 \* ---- tour H: optional keys of the header given / omitted (description, configuration word, NXP flag)
 TourH == UNION {{CfgA([K0 EXCEPT !.descAbsent = d, !.flagsAbsent = f, !.nxpAbsent = x, !.num = "dec"], Three, E2),
                  CfgB([K0 EXCEPT !.descAbsent = d, !.flagsAbsent = f, !.nxpAbsent = x, !.num = "int"], Three, E1)} : d \in BOOLEAN, f \in BOOLEAN, x \in BOOLEAN}
-Tour == TourK \cup TourP \cup TourS \cup TourC1 \cup TourC2 \cup TourC3 \cup TourH
+Tour == TourK \cup TourP \cup TourS \cup TourR \cup TourC1 \cup TourC2 \cup TourC3 \cup TourH
 
 \* lemmas of the tour (non-vacuity): every key form x size x curve x value class is there encrypted; every command shape is there;
 \* every pair of key names (container / nested certificate configuration) is there
@@ -126,10 +149,16 @@ ASSUME KeyLemma /\ ShapeLemma /\ FormLemma /\ SignLemma
 
 \* ---- simulation: every dimension drawn step by step, then a random command list over all shapes
 S0 == Case(32, 1, 0, FALSE, 0, 128, 0, FALSE, K0, <<>>, E1)
-PickCrypto == /\ stage = "crypto" /\ stage' = "key"
+PickCrypto == /\ stage = "crypto" /\ stage' = "rk"
               /\ \E cv \in {32, 48}, nk \in 1..4, ik \in {<<FALSE, 0>>, <<TRUE, 0>>, <<TRUE, 4>>, <<TRUE, 96>>}, nx \in BOOLEAN, fam \in Fams :
                    \E us \in 0..(nk - 1) :
-                     case' = [case EXCEPT !.curve = cv, !.nkeys = nk, !.used = us, !.isk = ik[1], !.ud = ik[2], !.nxp = nx, !.k.fam = fam]
+                     case' = [case EXCEPT !.curve = cv, !.nkeys = nk, !.used = us, !.isk = ik[1], !.ud = ik[2], !.nxp = nx, !.k.fam = fam,
+                                          !.rk = AllFull(nk), !.ik = "full"]
+\* value classes of the keys (two disjuncts of the next-state relation - the simulator draws a disjunct first: about half of the
+\* cases keep full-width keys, the others get any vector of classes)
+KeepFull == stage = "rk" /\ stage' = "key" /\ UNCHANGED case
+PickKeys == /\ stage = "rk" /\ stage' = "key"
+            /\ \E v \in [1..case.nkeys -> KeyClasses] : \E c \in KeyClasses : case' = [case EXCEPT !.rk = v \o <<>>, !.ik = c]
 PickKey == /\ stage = "key" /\ stage' = "sign"
            /\ \E bits \in {128, 256}, f \in PckForms \cup {"absent"}, v \in {"rnd", "lead0", "half0"}, ek \in {"true", "absent", "false"}, rt \in 0..3 :
                 case' = [case EXCEPT !.pck = bits, !.rights = rt, !.enc = (ek # "false"), !.k.pckForm = f, !.k.pckVal = v, !.k.encKey = ek]
@@ -146,5 +175,5 @@ Finish == /\ (stage = "tour" \/ (stage = "cmds" /\ Len(case.cmds) >= 1))
           /\ stage' = "done" /\ UNCHANGED case
           /\ (Usable(Norm(case)) => PrintT(ToJson(Norm(case))))
 GInit == IF Mode = "tour" THEN stage = "tour" /\ case \in Tour ELSE stage = "crypto" /\ case = S0
-GNext == PickCrypto \/ PickKey \/ PickSign \/ PickHdr \/ Grow \/ Finish
+GNext == PickCrypto \/ KeepFull \/ PickKeys \/ PickKey \/ PickSign \/ PickHdr \/ Grow \/ Finish
 =============================================================================
